@@ -803,7 +803,7 @@ func main() {
 	}
 	h.cases = vh.NewCases(a, "From Coq Require Import List NArith ZArith.\nFrom Verif Require Import Common.GoStr GoLite.Syntax GoLite.Sem C34.Model.\nAdd LoadPath \".\" as Gen.\nFrom Gen Require Import Gen_cti_basic_method.\nImport ListNotations.\nOpen Scope Z_scope.",
 		"case", "mismatches table", 450)
-	h.wd = vh.NewWatchdog(rep, 60*time.Second)
+	h.wd = vh.NewWatchdog(rep, 180*time.Second)
 
 	methodSets(h)
 	intKind[int](h, "int", 64, true)
